@@ -407,7 +407,13 @@ def rule_nep50(repo, rep, cg, reach):
             if isinstance(e, ast.Subscript) and isinstance(e.slice, (ast.Constant, ast.UnaryOp)) and re.search(r"(^|[._])shape$", str(norm(e.value))):
                 return True
             if isinstance(e, ast.Name):
-                return e.id in dims
+                if e.id not in dims:
+                    return False
+                # flow: the last assignment of the name before this use decides (c = int(c) widens c from there on)
+                prior = [s_ for s_ in assigns if s_.lineno < getattr(e, "lineno", 10 ** 9) and any(isinstance(x_, ast.Name) and x_.id == e.id for x_ in ast.walk(s_.targets[0]))]
+                if prior and isinstance(prior[-1].targets[0], ast.Name) and isinstance(prior[-1].value, ast.Call) and norm(prior[-1].value.func) in ("int", "float"):
+                    return False
+                return True
             if isinstance(e, ast.IfExp):
                 return is_dim(e.body) or is_dim(e.orelse)
             if isinstance(e, ast.BinOp) and isinstance(e.op, (ast.Mult, ast.Add, ast.Sub, ast.FloorDiv)):
@@ -417,6 +423,9 @@ def rule_nep50(repo, rep, cg, reach):
         def is_wide(e):
             if isinstance(e, ast.Name):
                 return e.id in wide
+            v_ = try_fold(e)
+            if isinstance(v_, int) and not isinstance(v_, bool) and not (-(1 << 31) <= v_ < (1 << 31)):
+                return True  # a Python int constant outside int32
             if isinstance(e, ast.BinOp) and isinstance(e.op, ast.LShift):
                 return is_wide(e.left)
             return False
@@ -427,8 +436,15 @@ def rule_nep50(repo, rep, cg, reach):
                 if isinstance(t, ast.Name):
                     if is_dim(s_.value):
                         dims.add(t.id)
-                    if is_wide(s_.value) and not (isinstance(s_.value, ast.Name)):
-                        pass
+                    v_ = try_fold(s_.value)
+                    if isinstance(v_, int) and not isinstance(v_, bool) and not (-(1 << 31) <= v_ < (1 << 31)):
+                        wide.add(t.id)
+                # n, h, w, c = x.shape / full_shape(4, x.shape, 1): every target is a dimension
+                if isinstance(t, ast.Tuple) and all(isinstance(e_, ast.Name) for e_ in t.elts):
+                    v = s_.value
+                    src = v.args[1] if isinstance(v, ast.Call) and (call_name(v) or "").split(".")[-1] == "full_shape" and len(v.args) >= 2 else v
+                    if isinstance(src, ast.Attribute) and src.attr == "shape":
+                        dims.update(e_.id for e_ in t.elts)
                 if isinstance(t, ast.Tuple) and isinstance(s_.value, ast.Call) and (call_name(s_.value) or "").split(".")[-1] in ("quantise_scale", "elementwise_mul_scale") and t.elts and isinstance(t.elts[0], ast.Name):
                     wide.add(t.elts[0].id)
         if not dims or not wide:
@@ -440,6 +456,11 @@ def rule_nep50(repo, rep, cg, reach):
                         n_w += 1
                         rep.bad("C13-a'", f"ethosu/vela/{fi.mod.name}.py:{fi.qual}", f"{str(norm(node))[:90]} with the tensor dimension `{str(norm(b))[:40]}` : np.int32",
                                 f"`{str(norm(a))[:50]}` is a Q31 multiplier shifted left (a Python int of up to 63 bits) and the other operand is a dimension read from the model (np.int32): NumPy >= 2 raises OverflowError")
+                    elif is_wide(a) and isinstance(a, ast.Name) and isinstance(try_fold(next((s_.value for s_ in assigns if isinstance(s_.targets[0], ast.Name) and s_.targets[0].id == a.id), a)), int) and is_dim(b):
+                        n_w += 1
+                        rep.bad("C13-a'", f"ethosu/vela/{fi.mod.name}.py:{fi.qual}", f"{str(norm(node))[:90]} with the tensor dimension `{str(norm(b))[:40]}` : np.int32",
+                                f"`{a.id}` is the Python int constant {try_fold(next(s_.value for s_ in assigns if isinstance(s_.targets[0], ast.Name) and s_.targets[0].id == a.id))} (outside int32) and the other operand "
+                                "derives from a dimension read from the model (np.int32): NumPy >= 2 raises OverflowError (valid model with this operator -> traceback)")
     rep.check(len(narrow_ret) + len(narrow_attr) >= 1 or True, "C13-a'", "ethosu/vela", f"{len(narrow_ret)} narrow-array producers, {len(narrow_attr)} narrow attributes tracked", "")
     # numpy is unpinned: the rule applies
     pp = repo.read_text("pyproject.toml")
